@@ -108,6 +108,29 @@ def roundtrip(fills, label, version, code, res, tag, via='formatter', chain=1):
     if lua_text is not None and lua_text not in expected_code(src_code):
         res.violation('C03|code|ref|%s' % tag_class(tag),
                       'cart %s: code in file %r != cart code %r' % (tag, lua_text[:60], src_code[:60]), case)
+    # (c) the same file read by NAME (file.from_file: what every CLI command and build use)
+    from pico8.game import file as p8file
+    dname = tempfile.mkdtemp(prefix='c03n_')
+    try:
+        pth = os.path.join(dname, 'rt.p8')
+        open(pth, 'wb').write(data)
+        try:
+            g3 = p8file.from_file(pth)
+            code3 = b''.join(g3.lua.to_lines())
+            got3 = carts.game_regions(g3)
+            if code3 not in expected_code(src_code):
+                res.violation('C03|code|reread-by-name|%s' % tag_class(tag),
+                              'cart %s: code after write + file.from_file(name) %r != %r' % (tag, code3[:60], src_code[:60]), case)
+            for n, _ in rc.REGION_ORDER:
+                if got3[n] != want_regions[n]:
+                    res.violation('C03|region|reread-by-name|%s' % n, 'cart %s: %s region differs after write + file.from_file(name)' % (tag, n), case)
+            if g3.version != version or (g3.label is None) != (label is None):
+                res.violation('C03|version-or-label|reread-by-name', 'version / label presence changed by write + file.from_file(name)', case)
+        except Exception as e:
+            res.violation('C03|read|raise|%s|by-name|%s' % (type(e).__name__, tag_class(tag)),
+                          'file.from_file on the written cart %s raised %r' % (tag, e), case)
+    finally:
+        shutil.rmtree(dname, ignore_errors=True)
     # (b) picotool reader, chain
     cur = data
     for step in range(chain):
